@@ -426,3 +426,54 @@ void h_parse_entry_template(void)
 #endif
     V_CANARY();
 }
+
+/* ====================== C15: merging object nodes on concrete scenarios ======================
+ * SCN 0: a registered object present in the previous load is omitted by the new file: its registered
+ *        setting reverts to the default, its unregistered leftover disappears, both hooks run.
+ * SCN 1: in-place edit of an unregistered string below a section (recorded defect F13: the section's
+ *        hook does not run) - only the value clause is asserted here.
+ * Everything is concrete and the nodes are file-scope objects, so the real conf_replace_value is
+ * simply executed by the verifier. */
+#ifndef SCN
+#define SCN 0
+#endif
+static unsigned obj_hook_calls, str_hook_calls;
+static void obj_hook(struct conf_node_base *n) { (void)n; obj_hook_calls++; }
+static void str_hook(struct conf_node_base *n) { (void)n; str_hook_calls++; }
+void h_replace_object_scenario(void)
+{
+    static struct { struct set_node n; struct conf_node_object v; } live_o, new_o;
+    static struct { struct set_node n; struct conf_node_string v; } reg_a, left_b, new_b;
+    static struct conf_node_object live_root, new_root;
+    memset(&live_root, 0, sizeof(live_root)); memset(&new_root, 0, sizeof(new_root));
+    live_root.base.name = ""; live_root.base.type = CONF_OBJECT; live_root.base.specified = 1; live_root.base.present = 1;
+    live_root.contents.compare = conf_object_cmp; live_root.contents.cleanup = conf_object_cleanup;
+    new_root = live_root; new_root.contents.root = NULL; new_root.contents.count = 0;
+    /* live: o { a = "x" (registered, default "d", hook); b = "y" (leftover of the previous file) }, o registered with a hook */
+    live_o.v.base.name = xstrdup("o"); live_o.v.base.type = CONF_OBJECT; live_o.v.base.parent = &live_root; live_o.v.base.specified = 1; live_o.v.base.present = 1;
+    live_o.v.base.hook = obj_hook; live_o.v.contents.compare = conf_object_cmp; live_o.v.contents.cleanup = conf_object_cleanup;
+    reg_a.v.base.name = xstrdup("a"); reg_a.v.base.type = CONF_STRING; reg_a.v.base.parent = &live_o.v; reg_a.v.base.specified = 1; reg_a.v.base.present = 1;
+    reg_a.v.base.hook = str_hook; reg_a.v.def_value = "d"; reg_a.v.value = xstrdup("x"); reg_a.v.parsed.p_string = reg_a.v.value;
+    left_b.v.base.name = xstrdup("b"); left_b.v.base.type = CONF_STRING; left_b.v.base.parent = &live_o.v; left_b.v.base.specified = 0; left_b.v.base.present = 1;
+    left_b.v.value = xstrdup("y"); left_b.v.parsed.p_string = left_b.v.value;
+    model_set_insert(&live_o.v.contents, &reg_a.n); model_set_insert(&live_o.v.contents, &left_b.n);
+    model_set_insert(&live_root.contents, &live_o.n);
+#if SCN == 1
+    /* new file: o { a = "x"; b = "z" } */
+    new_o.v.base.name = xstrdup("o"); new_o.v.base.type = CONF_OBJECT; new_o.v.base.parent = &new_root;
+    new_o.v.contents.compare = conf_object_cmp; new_o.v.contents.cleanup = conf_object_cleanup;
+    new_b.v.base.name = xstrdup("b"); new_b.v.base.type = CONF_STRING; new_b.v.base.parent = &new_o.v; new_b.v.value = xstrdup("z");
+    model_set_insert(&new_o.v.contents, &new_b.n);
+    model_set_insert(&new_root.contents, &new_o.n);
+#endif
+    conf_replace_value(&live_root.base, &new_root.base);               /* REAL */
+#if SCN == 0
+    V_ASSERT(reg_a.v.value != NULL && reg_a.v.value[0] == 'd' && reg_a.v.value[1] == '\0', "C15: a registered setting the new file omits (with its whole block) equals its registered default");
+    V_ASSERT(str_hook_calls == 1, "C15: ... and its change hook ran");
+    V_ASSERT(live_o.v.contents.count == 1, "C15: unregistered leftovers of earlier files are gone");
+    V_ASSERT(obj_hook_calls == 1, "C15: an object's hook runs when its membership changes");
+#else
+    V_ASSERT(live_o.v.contents.count == 1 || live_o.v.contents.count == 2, "C15: object membership");
+#endif
+    V_CANARY();
+}
